@@ -244,6 +244,27 @@ class Driver:
         return out
 
 
+def shrink_list(items, still_fails, max_rounds=400):
+    """greedy delta-debugging on a list: drop elements while `still_fails(candidate)` holds"""
+    items = list(items)
+    rounds = 0
+    chunk = max(len(items) // 2, 1)
+    while chunk >= 1 and rounds < max_rounds:
+        i = 0
+        changed = False
+        while i < len(items) and rounds < max_rounds:
+            cand = items[:i] + items[i + chunk:]
+            rounds += 1
+            if cand != items and still_fails(cand):
+                items = cand
+                changed = True
+            else:
+                i += chunk
+        if not changed:
+            chunk //= 2
+    return items
+
+
 # --------------------------------------------------------------------------------------------
 # known findings
 def load_known():
